@@ -384,7 +384,7 @@ impl Check for C19 {
     }
     fn generate(&self, g: &GenParams, emit: &mut dyn FnMut(Case)) {
         let mut r = g.rng(19);
-        let n = g.count(60_000, 3_000_000);
+        let n = g.count(200_000, 10_000_000);
         for k in 0..n {
             emit(Case::with("dyn", vec![], &[r.next() as i64, (k % 9 == 0) as i64]));
         }
@@ -395,7 +395,7 @@ impl Check for C19 {
                 emit(Case::with("typed", vec![], &[t as i64, r.next() as i64, 16]));
             }
         }
-        let n = g.count(50_000, 2_500_000);
+        let n = g.count(150_000, 8_000_000);
         for k in 0..n {
             let mut o = DocOpts::random(&mut r);
             o.dup_keys = false;
